@@ -87,6 +87,9 @@ def rhs_origin(fn, rhs, depth, seen):
             a0 = M._split_top(args)[0] if args else ""
             tag = "try" if "Try>::branch" in callee else "deref" if "eref" in callee else "asref"
             return "%s(%s)" % (tag, origin(fn, a0, depth + 1, seen))
+        if re.search(r"<(String|str|&str|&String) as PartialEq", c) or re.search(r"::(starts_with|ends_with)::", c):
+            parts = M._split_top(args)
+            return "call %s(%s)" % (c, ", ".join(origin(fn, p_, depth + 1, seen) for p_ in parts[:2]))
         if c.startswith("anyhow::__private::not::"):
             a0 = M._split_top(args)[0] if args else ""
             return "ensure_not(%s)" % origin(fn, a0, depth + 1, seen)
@@ -216,8 +219,42 @@ class Graph:
                 continue
             for lab, tgt in b.succs:
                 if tgt in self.block_in:
-                    self.edges.append((self.block_out[idx], self.block_in[tgt], lab if b.kind == "switch" else "flow", idx))
+                    # jump threading for `matches!` / `&&` / `||` lowering: a block that sets a flag to a
+                    # constant and falls into a statement-free switch on that flag goes straight to the arm
+                    # the constant selects (the other arm is infeasible on this edge).
+                    t2 = self._thread(b, tgt) if b.kind != "switch" else None
+                    if t2 is not None and t2 in self.block_in:
+                        self.edges.append((self.block_out[idx], self.block_in[t2], "flow", idx))
+                    else:
+                        self.edges.append((self.block_out[idx], self.block_in[tgt], lab if b.kind == "switch" else "flow", idx))
         self.entry = self.block_in[0]
+
+    def _thread(self, b, tgt):
+        j = self.fn.blocks.get(tgt)
+        if j is None or j.cleanup or j.kind != "switch" or j.stmts:
+            return None
+        m = re.match(r"^(?:move |copy )?(_\d+)$", (j.switch_local or "").strip())
+        if not m:
+            return None
+        loc = m.group(1)
+        val = None
+        for s_ in b.stmts:
+            mm = re.match(r"^%s = const (true|false);$" % re.escape(loc), s_)
+            if mm:
+                val = mm.group(1)
+            elif s_.startswith(loc + " = "):
+                val = None
+        if val is None:
+            return None
+        want = "0" if val == "false" else None
+        for lab, t in j.succs:
+            if val == "false" and lab == "0":
+                return t
+        if val == "true":
+            for lab, t in j.succs:
+                if lab == "otherwise" or lab == "1":
+                    return t
+        return None
 
     def return_nodes(self):
         return [self.block_out[i] for i, b in self.fn.blocks.items() if not b.cleanup and b.kind == "return"]
